@@ -6,6 +6,7 @@ import LexgenModel.Proofs.CompileLang
 import LexgenModel.Proofs.EndToEnd
 import LexgenModel.Proofs.RefRefine
 import LexgenModel.Proofs.CapstoneRun
+import LexgenModel.Proofs.DumpedMachine
 /-!
 # C01 — Longest match with first-rule priority, recovered by backtracking
 
@@ -225,5 +226,24 @@ theorem C01_run_is_reference_tokenisation (items : LexerDef) (c : Compiled) (h :
     (actions : Nat → Action σ τ ε) (width : Nat → Nat) (input : Option (List Nat)) (user : σ) (chars : List Nat) (n : Nat) :
     runN (c.config actions width input) n (initState user chars) = specRunN items (c.config actions width input) n (initState user chars) :=
   run_fresh_eq_spec items c h hok hne actions width input user chars n
+
+/-- **The machine the real macro produced computes the specification.** The theorems above are about the machine the MODEL of the macro compiles.
+The correspondence check does not assume the real macro produces that machine: on every run it dumps the machine the macro really built for each
+definition and evaluates `stageOK` on it (`lexmodel`, stage `stageok`): same rule-set names, product exploration `bisim` with the model's machine from
+every entry, right-context automata pairwise bisimilar, the well-formedness checker `machineWF` (with the macro's own inlining set), no transition
+into a state without transitions. For ANY machine passing that executable test — whatever its state numbers, inlining, table shapes — the model of the
+generated `next()` running on THAT machine returns exactly what the executable reference lexer of the definition returns, for every input over Unicode
+scalar values, after any number of calls. What remains trusted is that the generated Rust text behaves like the model interpreter on the dumped
+machine (compared on every trace of every run). Found while proving: `bisim` alone cannot tell an `Accept` transition from a transition into an
+accepting state without transitions, and `InvalidToken` consumes one character more through the latter — hence the extra conjunct `gotoLive`. -/
+theorem C01_real_machine_is_specification (items : LexerDef) (c : Compiled) (h : compileLexer items = .ok c)
+    (hok : DefOK items) (hne : DefNE items)
+    (dfa : DFA Trans) (entries : List (String × Nat)) (ctxs : List (DFA Nat)) (inl : List Nat)
+    (hs : stageOK c dfa entries ctxs inl = true)
+    (actions : Nat → Action σ τ ε) (width : Nat → Nat) (input : Option (List Nat)) (user : σ) (chars : List Nat)
+    (hch : ∀ ch ∈ chars, ch ≤ charMax) (n : Nat) :
+    runN { dfa := dfa, ctxs := ctxs, entries := entries, inl := inl, actions := actions, width := width, input := input } n (initState user chars) =
+      specRunN items { dfa := dfa, ctxs := ctxs, entries := entries, inl := inl, actions := actions, width := width, input := input } n (initState user chars) :=
+  dumped_machine_runs_are_specification items c h hok hne dfa entries ctxs inl hs actions width input user chars hch n
 
 end Lexgen
